@@ -440,7 +440,8 @@ pub struct WCase {
     pub content: Content,
     pub writes: Vec<u32>,
     /// 0 = write, 1 = write_all, 2 = io::copy with a chunked source, 3 = write_vectored (two halves per write), 4 = BufWriter,
-    /// 5 = one write_vectored call over all slices (repeated for the remainder), 6 = the same three slices at a time
+    /// 5 = one write_vectored call over all slices (repeated for the remainder), 6 = the same three slices at a time,
+    /// 7 = write! / writeln! with formatted text derived from the data
     pub how: u8,
 }
 
@@ -449,7 +450,31 @@ pub fn check_write(c: &WCase) -> Result<(), String> {
     let data = c.content.expand(total);
     let mut h = c.mode.hasher();
     let mut pos = 0usize;
-    match c.how % 7 {
+    if c.how % 8 == 7 {
+        // write! / writeln! (Write::write_fmt): text derived from the data: strings, single chars (ASCII, U+0080..U+00FF,
+        // multi-byte), integers, padded fields with a non-ASCII fill character; the bytes absorbed must be exactly
+        // those of format!() with the same arguments
+        let mut expect: Vec<u8> = Vec::new();
+        for (k, w) in c.writes.iter().enumerate() {
+            let seg = &data[pos..pos + core::cmp::min(*w as usize, 48)];
+            pos += *w as usize;
+            let text: String = seg.iter().map(|b| char::from_u32(0x20 + *b as u32 * 3).unwrap_or('?')).collect();
+            let latin1 = char::from_u32(0x80 + (*w % 0x80)).unwrap_or('\u{e9}');
+            let from_byte = seg.first().map(|b| char::from(*b)).unwrap_or('\u{a7}');
+            let n = (*w as u64).wrapping_mul(2654435761);
+            if k % 2 == 0 {
+                write!(h, "{}{}|{}|{:>7}|{:\u{e9}<5}|{:?}", text, latin1, from_byte, n, w % 100, latin1).map_err(|e| e.to_string())?;
+                expect.extend_from_slice(format!("{}{}|{}|{:>7}|{:\u{e9}<5}|{:?}", text, latin1, from_byte, n, w % 100, latin1).as_bytes());
+            } else {
+                writeln!(h, "{}{:x}{}", from_byte, n, text).map_err(|e| e.to_string())?;
+                expect.extend_from_slice(format!("{}{:x}{}\n", from_byte, n, text).as_bytes());
+            }
+        }
+        h.flush().map_err(|e| e.to_string())?;
+        ensure!(h.count() == expect.len() as u64, "count() = {} after write!/writeln! of {} bytes of formatted text", h.count(), expect.len());
+        return eq_bytes("hash after write!/writeln! (Write::write_fmt)", h.finalize().as_bytes(), &b3spec::root(&c.mode.kf(), &expect).hash());
+    }
+    match c.how % 8 % 7 {
         5 | 6 => {
             // write_vectored with many slices per call (how 5: all of them, how 6: three at a time); after a partial
             // write the call is repeated with the slices that remain, as write_all_vectored does
@@ -458,7 +483,7 @@ pub fn check_write(c: &WCase) -> Result<(), String> {
                 slices.push(&data[pos..pos + *w as usize]);
                 pos += *w as usize;
             }
-            let group = if c.how % 7 == 5 { slices.len().max(1) } else { 3 };
+            let group = if c.how % 8 == 5 { slices.len().max(1) } else { 3 };
             for g in slices.chunks(group) {
                 let mut rest: Vec<&[u8]> = g.to_vec();
                 let mut guard = 0;
@@ -521,7 +546,7 @@ pub fn check_write(c: &WCase) -> Result<(), String> {
 }
 
 fn write_strategy(_tier: Tier) -> BoxedStrategy<WCase> {
-    (gen::mode4(), gen::content(), prop::collection::vec(prop_oneof![4 => 0u32..=100, 4 => 0u32..=3000, 4 => 0u32..=40_000, 1 => 60_000u32..=200_000, 1 => crate::gen::select(vec![65_535u32, 65_536, 65_537, 131_072])], 0..12), 0u8..7)
+    (gen::mode4(), gen::content(), prop::collection::vec(prop_oneof![4 => 0u32..=100, 4 => 0u32..=3000, 4 => 0u32..=40_000, 1 => 60_000u32..=200_000, 1 => crate::gen::select(vec![65_535u32, 65_536, 65_537, 131_072])], 0..12), 0u8..8)
         .prop_map(|(mode, content, writes, how)| WCase { mode, content, writes, how })
         .boxed()
 }
@@ -560,10 +585,10 @@ pub fn subs() -> Vec<Box<dyn DynSub>> {
         }),
         Box::new(PropSub::<WCase> {
             name: "write-adapter",
-            rule: "proptest: the same bytes delivered through Write::write (must return buf.len()), write_all, io::copy from a short-read source, write_vectored (two halves per write, all slices in one call, or three at a time, with slices from 0 bytes to 200 KB incl. 64 KiB +-1), BufWriter; oracle: count() and hash == spec",
+            rule: "proptest: the same bytes delivered through Write::write (must return buf.len()), write_all, io::copy from a short-read source, write_vectored (two halves per write, all slices in one call, or three at a time, with slices from 0 bytes to 200 KB incl. 64 KiB +-1), BufWriter, write!/writeln! with strings, chars (incl. U+0080..U+00FF), integers and padded fields; oracle: count() and hash == spec",
             cases: (12_000, 60_000),
             strategy: write_strategy,
-            classify: |c| Classes::new(c.writes.len() >= 2).tag(c.how % 7 == 0, "write").tag(c.how % 7 == 1, "write_all").tag(c.how % 7 == 2, "io::copy").tag(c.how % 7 == 3, "write_vectored(2)").tag(c.how % 7 == 4, "BufWriter").tag(c.how % 7 == 5, "write_vectored(all)").tag(c.how % 7 == 6, "write_vectored(3)").tag(c.writes.iter().any(|w| *w >= 65_536), "slice>=64KiB"),
+            classify: |c| Classes::new(c.writes.len() >= 2).tag(c.how % 8 == 0, "write").tag(c.how % 8 == 1, "write_all").tag(c.how % 8 == 2, "io::copy").tag(c.how % 8 == 3, "write_vectored(2)").tag(c.how % 8 == 4, "BufWriter").tag(c.how % 8 == 5, "write_vectored(all)").tag(c.how % 8 == 6, "write_vectored(3)").tag(c.how % 8 == 7, "write_fmt").tag(c.writes.iter().any(|w| *w >= 65_536), "slice>=64KiB"),
             check: check_write,
             known: None,
             crumb: false,
